@@ -46,9 +46,9 @@ func extraMode(mode string, n int, r *rand.Rand) bool {
 			emit(x)
 		}
 	case "e2esweep":
-		sizes := []int{13, 257, 4099}
+		sizes := []int{13, 257, 300, 4099}
 		if n > 1 {
-			sizes = []int{3, 13, 17, 257, 1025, 4095, 4096, 4097, 4099, 8193, 16385}
+			sizes = []int{3, 13, 17, 255, 256, 257, 300, 1023, 1025, 4095, 4096, 4097, 4099, 8193, 16385}
 		}
 		for _, sz := range sizes {
 			for _, x := range runE2ESweep(r, sz) {
